@@ -401,11 +401,13 @@ def new_group(suffix):
 PROB = {'required': 0.3, 'forbidden': 0.22, 'member_of': 0.28, 'forbidden_aggs': 0.15, 'in_tree': 0.2}
 
 
-def gen_query(rng, v, old=False):
+def gen_query(rng, v, old=False, mv=None):
     """an abstract query aimed at the state seen through View v.
     old=True: a query admissible below microversion 1.29 (no in_tree / forbidden aggregates / string suffixes /
     root_required / same_subtree / any-of), rendered at 1.25 .. 1.28 (granular) or 1.17 .. 1.24."""
-    if old:
+    if mv is not None:
+        pass
+    elif old:
         mv = rng.choice([28, 28, 27, 26, 25, 25, 24, 22, 21, 17])
     else:
         mv = rng.choice([39] * 7 + [38, 36, 36, 35, 34])
@@ -415,6 +417,8 @@ def gen_query(rng, v, old=False):
     p = dict(PROB)
     if not allow['member_of']:
         p['member_of'] = 0
+    if mv < 17:
+        p['required'] = 0
     # most queries are aimed at one anchor: classes, amounts, traits, aggregates of the providers it may use
     scope = None
     if v.roots and rng.random() < 0.8:
@@ -513,7 +517,7 @@ def gen_query(rng, v, old=False):
     return q
 
 
-def _fit(rng, v, k, placed):
+def _fit(rng, v, k, placed, small=False):
     """an amount that fits inventory k on top of what other groups of this query already place there, or None"""
     i = v.invs[k]
     done = placed.get(k, 0)
@@ -526,31 +530,33 @@ def _fit(rng, v, k, placed):
     if top < lo:
         return None
     r = rng.random()
-    if r < 0.4:
+    if r < (0.85 if small else 0.4):
         return lo
-    if r < 0.8:
+    if r < (0.9 if small else 0.8):
         return top
     return lo + st * rng.randrange(0, min((top - lo) // st, 50) + 1)
 
 
-def gen_query_witness(rng, v):
+def gen_query_witness(rng, v, mv=None, dens=None, small=False):
     """a query built around a witness (anchor, one provider per suffixed group, one provider per class of the
     unsuffixed group): amounts fit the witness' inventories - sums included -, filters are mostly taken from what
     the witness has (required traits, member_of) or lacks (forbidden traits / aggregates).  Request-wide
     parameters are sprinkled freely, so the witness itself may be excluded; others may qualify as well."""
-    mv = rng.choice([39] * 8 + [38, 36, 36, 35, 34])
+    if mv is None:
+        mv = rng.choice([39] * 8 + [38, 36, 36, 35, 34])
     root = rng.choice(v.roots)
     scope = v.scope(root)
     tree = [u for u in scope if v.rps[u]['root'] == root]
     with_inv = sorted(set(k[0] for k in v.invs if k[0] in scope))
     if not with_inv:
-        return gen_query(rng, v)
-    numeric = rng.random() < 0.4
+        return gen_query(rng, v, mv=mv)
+    numeric = mv < 33 or rng.random() < 0.4
     names = ['1', '2', '3'] if numeric else ['_A', '_NET', 'c-3']
     q = {'unsuff': None, 'groups': [], 'policy': None, 'same_subtree': [], 'root_required': [], 'root_forbidden': [],
          'mv': mv, 'rs': rng.randrange(1 << 30)}
     placed = {}
-    dens = rng.choice([0.0, 0.5, 1.0, 1.0, 1.6])
+    if dens is None:
+        dens = rng.choice([0.0, 0.5, 1.0, 1.0, 1.6])
     allow_anyof = mv >= 39
 
     def filters(g, wit, unsuffixed):
@@ -566,7 +572,7 @@ def gen_query_witness(rng, v):
             all_a |= v.aggs.get(root, set())
         lack_a = [x for x in AGGS if x not in all_a]
         src = have if unsuffixed else common_have
-        if src and rng.random() < 0.3 * dens:
+        if mv >= 17 and src and rng.random() < 0.3 * dens:
             req = []
             for _ in range(rng.choice([1, 1, 2])):
                 t1 = rng.choice(sorted(src))
@@ -575,14 +581,14 @@ def gen_query_witness(rng, v):
                 else:
                     req.append([t1])
             g['required'] = req
-        if rng.random() < 0.25 * dens:
+        if mv >= 22 and rng.random() < 0.25 * dens:
             pool = lack if (lack and rng.random() < 0.85) else TRAITS
             pool = [t for t in pool if not any(t in s_ for s_ in g['required'])]
             if pool:
                 g['forbidden'] = sorted(rng.sample(pool, 1 if len(pool) < 2 or rng.random() < 0.8 else 2))
-        if common_a and rng.random() < 0.3 * dens:
+        if mv >= 21 and common_a and rng.random() < 0.3 * dens:
             mo = []
-            for _ in range(rng.choice([1, 1, 2])):
+            for _ in range(rng.choice([1, 1, 2]) if mv >= 24 else 1):
                 a1 = rng.choice(common_a)
                 r = rng.random()
                 if r < 0.55:
@@ -590,13 +596,13 @@ def gen_query_witness(rng, v):
                 else:
                     mo.append(sorted([a1, rng.choice([x for x in AGGS + UNKNOWN_AGGS[:1] if x != a1])]))
             g['member_of'] = mo
-        elif rng.random() < 0.05 * dens:
+        elif mv >= 21 and rng.random() < 0.05 * dens:
             g['member_of'] = [[rng.choice(AGGS + UNKNOWN_AGGS)]]
         if mv >= 32 and rng.random() < 0.18 * dens:
             pool = lack_a + UNKNOWN_AGGS[:1] if rng.random() < 0.85 else AGGS
             if pool:
                 g['forbidden_aggs'] = sorted(rng.sample(pool, 1 if len(pool) < 2 or rng.random() < 0.7 else 2))
-        if rng.random() < 0.2 * dens:
+        if mv >= 31 and rng.random() < 0.2 * dens:
             if unsuffixed:
                 # every witness must then lie in the anchor's tree
                 if all(v.rps[u]['root'] == root for u in wit) or rng.random() < 0.2:
@@ -606,7 +612,7 @@ def gen_query_witness(rng, v):
                 same = [u for u in v.rps if v.rps[u]['root'] == r0]
                 g['in_tree'] = rng.choice(same) if rng.random() < 0.9 else rng.choice(list(v.rps))
 
-    n_suff = rng.choice([0, 1, 1, 2, 2, 3])
+    n_suff = rng.choice([0, 1, 1, 2, 2, 3]) if mv >= 25 else 0
     has_unsuff = n_suff == 0 or rng.random() < 0.7
     witness_of = {}
     if has_unsuff:
@@ -617,7 +623,7 @@ def gen_query_witness(rng, v):
             ks = [k for k in v.invs if k[1] == rc and k[0] in scope]
             rng.shuffle(ks)
             for k in ks:
-                n = _fit(rng, v, k, placed)
+                n = _fit(rng, v, k, placed, small)
                 if n is not None:
                     g['resources'].append([rc, n])
                     placed[k] = placed.get(k, 0) + n
@@ -635,7 +641,7 @@ def gen_query_witness(rng, v):
             # overlapping classes with other groups are welcome: take the provider's classes as they come
             res = []
             for rc in rng.sample(cl, min(len(cl), rng.choice([1, 1, 2]))):
-                n = _fit(rng, v, (tp, rc), placed)
+                n = _fit(rng, v, (tp, rc), placed, small)
                 if n is not None:
                     res.append([rc, n])
             if res:
@@ -647,7 +653,7 @@ def gen_query_witness(rng, v):
                 q['groups'].append(g)
                 break
     if not (q['unsuff'] or q['groups']):
-        return gen_query(rng, v)
+        return gen_query(rng, v, mv=mv)
     resless = None
     if mv >= 36 and q['groups'] and len(q['groups']) < 3 and rng.random() < 0.25:
         resless = new_group([x for x in names if x not in [g['suffix'] for g in q['groups']]][0])
@@ -681,7 +687,7 @@ def gen_query_witness(rng, v):
             q['same_subtree'].append(sorted(rng.sample(sfx, 2)))
     if len(sfx) >= 2:
         q['policy'] = rng.choice(['isolate', 'isolate', 'none'])
-    else:
+    elif mv >= 25:
         q['policy'] = rng.choice([None, None, None, 'none', 'isolate'])
     if mv >= 35 and rng.random() < 0.22:
         have = sorted(v.traits.get(root, ()))
